@@ -1,7 +1,7 @@
 (* C11 - property theorems.  Every statement quantifies over the state map,
    the role, the initial state, the queue capacity, the constants and the label
    list: every schedule of the engine's goroutines and every peer input. *)
-From V Require Import Lib.Base C11.Engine C11.EngineProofs C11.Model C11.Gen.
+From V Require Import Lib.Base C11.Engine C11.EngineProofs C11.AfterError C11.Model C11.Gen.
 Local Open Scope N_scope.
 
 (* exactly one agency token exists while some side has agency (none in a
@@ -85,6 +85,23 @@ Proof.
   unfold do_handler_ret in HS; cbn in HS. inversion HS; subst; reflexivity.
 Qed.
 Print Assumptions C11_after_error_partial.
+
+(* errors raised by the OTHER goroutines (readLoop decode error, sendLoop error,
+   state timeout) and an external Stop: in the strict model `stepS` - the engine
+   model plus the Go fact that no transition request can be accepted once
+   stopChan is closed (C11/AfterError.v) - after the stop no state transition
+   happens any more and at most ONE more message reaches the handler: the one
+   whose state-machine check had already been passed (its call was imminent).
+   Every strict run is a run of the engine model, so all other theorems apply. *)
+Theorem C11_after_error : forall sm r s0 rqcap k ls s s',
+  stopped (fl s) = true -> runS sm r s0 rqcap k s ls = Some s' ->
+  stopped (fl s') = true /\ tlog (lg s') = tlog (lg s) /\
+  exists extra, hlog (lg s') = hlog (lg s) ++ extra /\ (extra = [] \/ extra = accepted_pending (lph (rc s))).
+Proof. exact after_stop. Qed.
+Theorem C11_strict_refines : forall sm r s0 rqcap k ls s s',
+  runS sm r s0 rqcap k s ls = Some s' -> run sm r s0 rqcap k s ls = Some s'.
+Proof. exact runS_refines. Qed.
+Print Assumptions C11_after_error.
 
 (* the theorems hold for every exported state map of the repository (they hold
    for every map; this only records the instantiation with the generated tables) *)
